@@ -1,6 +1,6 @@
 // C18 — time, duration and size formatting is total and value-faithful.
 //
-// Parts (select with --arg only=<part>; default = duration+carry+ties+time+history+pairs+size+timeval):
+// Parts (select with --arg only=<part>; default = duration+carry+ties+time+history+pairs+priors+size+timeval):
 //   duration  every microsecond in B +- W around the unit boundaries (1 s, 60 s, 3600 s, 86400 s)
 //             x precision -1..6; W = 2 s in thorough (exhaustive), 20 ms in quick
 //   ties      decimal rounding ties of the seconds field, t = (m + 0.5) * 10^(6-p) us for p = 0..5 (all of them for
@@ -15,6 +15,10 @@
 //             threads: f(a), f(b) with b = a + d, d from a structured delta table (0, +-1 unit, +-(half) a printed digit,
 //             cell boundaries, +-k*2^j in every natural unit + small remainder, other precision / flag, f's own round trip);
 //             every result judged by the oracles below exactly as if the call had been made alone (c18_pairs.hh)
+//   priors    PRIOR HISTORIES: for every entry of the shared catalogue of earlier, unrelated uses of phosg's helpers (vf_history.hh:
+//             string_printf outputs of every length 0..132 and around every power of two up to 64 Ki / 1 Mi, long runs of short
+//             outputs, join/split/fgets/escape/format/hash-hex) a fresh thread runs the prior and then a mini-workload of every
+//             function of the property (~130 judged calls), judged by the same oracles as if made alone (c18_priors.hh)
 //   size      format_size / parse_size agreement at every power-of-1024 boundary, rounding ties, random
 //   timeval   usecs_to_timeval / timeval_to_usecs exact inverses
 //   dump      writes (t, text) and (usecs, precision, text) lines to <out>.c18dump for the Python oracle
@@ -43,6 +47,7 @@
 #include "Strings.hh"
 #include "Time.hh"
 #include "common.hh"
+#include "vf_history.hh"
 
 using namespace std;
 using vf::fmt;
@@ -891,6 +896,9 @@ static void timeval_suite(vf::Rng& r) {
 
 #include "c18_pairs.hh"
 
+// prior histories: every function of the property right after an unrelated earlier use of the shared helpers (part "priors")
+#include "c18_priors.hh"
+
 // --------------------------------------------------------------------------------------------------------
 
 int main(int argc, char** argv) {
@@ -942,6 +950,7 @@ int main(int argc, char** argv) {
   }
   if (want("history")) history_suite();
   if (want("pairs")) pair_suite(false);
+  if (want("priors")) prior_suite();
   if (want("size")) {
     vf::Rng r = c.rng(3);
     size_suite(r);
@@ -957,5 +966,6 @@ int main(int argc, char** argv) {
   c.sample("parse_size(format_size(s, incl)) for s = 2^(10k) * {1, 1023/1024, 1.005, 1.995, 999.994, 1023.99, ...} +- 2, 2^k +- 1, rounding ties, random");
   c.sample("timeval_to_usecs(usecs_to_timeval(x)) for 2^k +- 1, second boundaries, random to 2^63");
   c.sample("call pairs f(a), f(a + d) [, f(a)] on one thread / two threads, e.g. format_time(t) then format_time(t + k*2^32 s + r s), format_duration(x, 0) then format_duration(x + 0.5 s, 0), parse_size of two texts in one buffer");
+  c.sample("prior histories: fresh thread, string_printf(\"%*s\", 1024, \"\") [one of ~280 priors], then format_duration(65000000, 0), format_size(1536, true) + parse_size, format_time(T_MAX), usecs_to_timeval(...)", 7);
   return c.finish();
 }
